@@ -15,7 +15,7 @@ ROOT = os.path.dirname(os.path.dirname(os.path.abspath(__file__)))
 SPEC = os.path.join(ROOT, "spec")
 WORK = os.path.join(ROOT, "work")
 HARNESS = os.path.join(ROOT, "harness")
-DRIVE = os.path.join(HARNESS, "target", "release", "drive")
+BIN_DIR = os.path.join(HARNESS, "target", "release")
 REPO = os.environ.get("VERIF_REPO", "/repo")
 JAR = "/opt/veriftools/tla/tla2tools.jar:/opt/veriftools/tla/CommunityModules-deps.jar"
 NCPU = os.cpu_count() or 4
@@ -37,22 +37,37 @@ def ensure_dirs():
 # ---------------------------------------------------------------------------------------------
 # harness build
 # ---------------------------------------------------------------------------------------------
-_built = False
+_built = {}
 
 
-def build_harness():
-    """(Re)build the Rust driver against /repo's current working tree (path dependency)."""
-    global _built
-    if _built:
-        return DRIVE
+def harness_dir():
+    """The harness crate to build.  With VERIF_REPO=<scratch copy of the repository> (used to try
+    the checks on mutated copies without touching /repo) a copy of the harness whose path dependency
+    points there is kept under work/."""
+    if os.path.realpath(REPO) == "/repo":
+        return HARNESS
+    d = os.path.join(WORK, "alt-harness-" + hashlib.sha1(os.path.realpath(REPO).encode()).hexdigest()[:8])
+    os.makedirs(d, exist_ok=True)
+    subprocess.run(["rsync", "-a", "--delete", "--exclude", "target", HARNESS + "/", d + "/"], check=True)
+    ct = open(os.path.join(d, "Cargo.toml")).read().replace('path = "/repo"', f'path = "{os.path.realpath(REPO)}"')
+    open(os.path.join(d, "Cargo.toml"), "w").write(ct)
+    return d
+
+
+def build_harness(domain):
+    """(Re)build the driver binary of one domain (harness/src/bin/<domain>.rs) against /repo's
+    current working tree (path dependency, so edits under /repo are always picked up)."""
+    if domain in _built:
+        return _built[domain]
     ensure_dirs()
     env = dict(os.environ, CARGO_NET_OFFLINE="true")
-    lock = os.path.join(HARNESS, "Cargo.lock")
+    hdir = harness_dir()
+    lock = os.path.join(hdir, "Cargo.lock")
     if not os.path.exists(lock):
         shutil.copy(os.path.join(REPO, "Cargo.lock"), lock)
     t0 = time.time()
     for attempt in (1, 2):
-        p = subprocess.run(["cargo", "build", "--release", "--offline", "--quiet"], cwd=HARNESS, env=env,
+        p = subprocess.run(["cargo", "build", "--release", "--offline", "--quiet", "--bin", domain], cwd=hdir, env=env,
                            stdout=subprocess.PIPE, stderr=subprocess.STDOUT, text=True)
         if p.returncode == 0:
             break
@@ -61,9 +76,9 @@ def build_harness():
             continue
         sys.stdout.write(p.stdout[-6000:])
         raise ToolError("cargo build of the harness failed (the tree under /repo does not compile with the hooks on?)")
-    log(f"[build] harness built against {REPO} in {time.time()-t0:.1f}s")
-    _built = True
-    return DRIVE
+    log(f"[build] driver '{domain}' built against {REPO} in {time.time()-t0:.1f}s")
+    _built[domain] = os.path.join(hdir, "target", "release", domain)
+    return _built[domain]
 
 
 # ---------------------------------------------------------------------------------------------
@@ -89,7 +104,7 @@ def _unquote_tla(s):
     return json.loads(s)
 
 
-_cov_re = re.compile(r"^<(\w+) line \d+, col \d+ to line \d+, col \d+ of module (\w+)>: (\d+):(\d+)")
+_cov_re = re.compile(r"^<(\w+) (line \d+, col \d+ to line \d+, col \d+ of module \w+)>: (\d+):(\d+)")
 
 
 def run_tlc(module, cfg, workers=8, env=None, timeout=3600, simulate=None, heap="6g", coverage=True,
@@ -125,6 +140,7 @@ def run_tlc(module, cfg, workers=8, env=None, timeout=3600, simulate=None, heap=
         raise ToolError(f"TLC timed out after {timeout}s on {module} / {cfg}")
     shutil.rmtree(meta, ignore_errors=True)
     r = TlcResult()
+    covloc = {}
     r.rc = p.returncode
     r.out = p.stdout
     r.wall = time.time() - t0
@@ -146,12 +162,13 @@ def run_tlc(module, cfg, workers=8, env=None, timeout=3600, simulate=None, heap=
                 r.depth = int(m.group(1))
             m = _cov_re.match(line)
             if m:
-                name = m.group(1)
-                d, t = int(m.group(3)), int(m.group(4))
-                old = r.coverage.get(name, (0, 0))
-                r.coverage[name] = (old[0] + d, old[1] + t)
+                # cumulative figures may be printed several times: keep the last per location
+                covloc[(m.group(1), m.group(2))] = (int(m.group(3)), int(m.group(4)))
             if line.startswith("Error:") and r.violation is None:
                 r.violation = line
+    for (name, _loc), (d, t) in covloc.items():
+        old = r.coverage.get(name, (0, 0))
+        r.coverage[name] = (old[0] + d, old[1] + t)
     r.ok = (p.returncode == 0 and r.violation is None and
             ("No error has been found" in p.stdout or simulate is not None))
     return r
@@ -187,7 +204,7 @@ class Worker:
         self.p = None
 
     def start(self):
-        self.p = subprocess.Popen([DRIVE, self.domain], stdin=subprocess.PIPE, stdout=subprocess.PIPE,
+        self.p = subprocess.Popen([build_harness(self.domain)], stdin=subprocess.PIPE, stdout=subprocess.PIPE,
                                   stderr=subprocess.DEVNULL, bufsize=0)
         self.buf = b""
 
@@ -245,7 +262,7 @@ def run_cases(domain, cases, timeout=10.0, jobs=None, fatal_event=None):
     Returns a list (same order) of event lists.  `fatal_event(case, kind)` builds the event that
     stands for a case which hung ("timeout") or killed the process ("crash", e.g. stack overflow
     or abort); by default {"a": "Fatal", "case": id, "outcome": kind}."""
-    build_harness()
+    build_harness(domain)
     jobs = jobs or max(1, min(NCPU - 2, 12, (len(cases) + 199) // 200))
     results = [None] * len(cases)
     idx = list(range(len(cases)))
